@@ -65,3 +65,42 @@ func verifStubAPI_RandomSecret(a Algorithm) (string, error) {
 	}
 	return string(r[1:9]), nil
 }
+
+func verifSuiteNums(s Suite) (string, []uint64) {
+	cfg := s.Config()
+	b := func(x bool) uint64 {
+		if x {
+			return 1
+		}
+		return 0
+	}
+	return cfg.Raw, []uint64{uint64(cfg.Hash), uint64(cfg.Digits), uint64(cfg.Challenge), b(cfg.IncludeCounter), b(cfg.IncludeChallenge), b(cfg.IncludePassword),
+		b(cfg.IncludeSession), b(cfg.IncludeTimestamp), uint64(cfg.PasswordHash), uint64(cfg.TimeStep)}
+}
+
+func verifPackInput(secret, raw string, in OCRAInput) []byte {
+	var b []byte
+	for _, f := range [][]byte{[]byte(secret), []byte(raw), in.Counter, in.Challenge, in.Password, in.SessionInfo, in.Timestamp} {
+		b = append(b, byte(len(f)))
+		b = append(b, f...)
+	}
+	return b
+}
+
+func verifStubAPI_GenerateOCRA(secret string, suite Suite, in OCRAInput) (string, error) {
+	raw, nums := verifSuiteNums(suite)
+	r := verifUFv("GenerateOCRA", 7, verifPackInput(secret, raw, in), nums...)
+	if r[0]&1 == 1 {
+		return "", ErrInvalidRawSuite
+	}
+	return string(r[1:7]), nil
+}
+
+func verifStubAPI_ValidateOCRA(secret, code string, suite Suite, in OCRAInput) (bool, error) {
+	raw, nums := verifSuiteNums(suite)
+	r := verifUFv("ValidateOCRA", 1, verifPackInput(secret+"\x00"+code, raw, in), nums...)
+	if r[0]&1 == 1 {
+		return true, nil
+	}
+	return false, ErrInvalidCode
+}
